@@ -155,7 +155,12 @@ Section Body.
 Variable detect : bytes -> bytes.   (* http.DetectContentType *)
 
 (* parseRequestBody without multipart / marshal bodies; [merge_always] = pinned behaviour
-   (client form data re-added on every attempt) *)
+   (client form data re-added on every attempt).  The code's guard is the request flag
+   clientFormDataMerged (b34ec9c; before: r.RetryAttempt <= 0), set by the first pass that
+   reaches the merge; it is represented here by [r_attempt s <= 0]: for a fresh request
+   (RetryAttempt = 0, flag false) whose hooks leave RetryAttempt alone both are true on the
+   first pass and false on every later one (a payload-forbidden pass returns before the merge
+   in the code and in the model alike). *)
 Definition prep_body_gen (merge_always : bool) (c : client) (s : rstate) : rstate :=
   if payload_forbid c (r_method s) then set_body s None GBNil
   else
